@@ -288,13 +288,14 @@ META = dict(
         "the exact total probability of all alignments collapsing to each candidate prefix, precomputed per catalogue combination and selected by ites.  "
         "Asserted per slot with positive probability: in-range blank-free labels, length <= input length, distinct prefixes, probability <= exact alignment "
         "mass and == when the width covers every reachable prefix (then every positive-mass prefix is returned); non-increasing order; no negative/+inf/NaN "
-        "probabilities; an element's result equals searching its own valid frames alone."),
+        "probabilities; an element's result equals searching its own valid frames alone.  Fusion: with a stateful fused model that threads an injective code of the "
+        "history it was fed (extract_by_src / mix_by_mask), at every query the threaded code of each live prefix equals the code of that prefix's own tokens."),
     bounds=dict(quick="T<=2 frames with V=2 labels (6 catalogue rows) and T<=3 with V=1 (4 rows), widths 1..4 and the exhaustive width, N<=2, lengths symbolic in 0..T",
                 thorough="T<=3, V<=2 (4-6 catalogue rows), widths 1..exhaustive+2, N<=2"),
     assumptions=["frame distributions range over a finite catalogue of dyadic rows incl. zeros and ties (softmax stubbed to return the selected row)",
                  "topk ties broken towards the lowest index in the model (counterexamples preferentially tie-free, always replayed)",
                  "uninitialised memory is an unconstrained symbol"],
-    outside=["arbitrary real-valued frame probabilities (polynomial masses: z3 NRA returned unknown beyond T=2,V=1)", "fused language models (beta > 0)", "longer inputs / larger vocabularies"],
+    outside=["arbitrary real-valued frame probabilities (polynomial masses: z3 NRA returned unknown beyond T=2,V=1)", "the mass reported under language-model fusion (only the state threading of a fused stateful model is checked)", "longer inputs / larger vocabularies"],
 )
 
 M_ = "checks.c05"
@@ -320,4 +321,184 @@ def tasks(tier):
         for W in (1, 2, 3):
             if T * V <= 4:
                 ts.append(task(PROP, M_, "CtcBatchH", T=T, V=V, width=W, K=min(K, 4), time_limit=900))
+    for T, V, W, vm in ((3, 2, 3, False), (3, 2, 2, True), (2, 2, 4, False)) if q else [(T, 2, W, vm) for T in (2, 3) for W in (2, 3, 4) for vm in (False, True)]:
+        ts.append(task(PROP, M_, "CtcFusionH", T=T, V=V, N=2 if W < 4 else 1, width=W, K=3, beta=0.5, valid_mixture=vm, time_limit=900, nvalidate=1))
     return ts
+
+
+LOG75, LOG25 = math.log(0.75), math.log(0.25)
+
+
+class CtcFusionH(CtcSearchH):
+    """shallow fusion with a stateful language model: the model state must follow the surviving prefixes.
+    The fused LM threads an injective code of the history it has been fed (through extract_by_src / mix_by_mask); at every query the
+    threaded code of every live prefix must equal the code of that prefix's tokens.  cfg: T,V,N,width,K,beta,valid_mixture"""
+    functions = CtcSearchH.functions + ["pydrobert.torch._lm.MixableSequentialLanguageModel (subclassed by the harness)"]
+
+    def _lm(self, symbolic, record):
+        from pydrobert.torch.modules import MixableSequentialLanguageModel
+        V = self.cfg["V"]
+        h = self
+
+        class CodeLM(MixableSequentialLanguageModel):
+            def __init__(self):
+                super().__init__(V)
+
+            def update_input(self, prev, hist):
+                if "code" in prev:
+                    return prev
+                return {"code": torch.zeros((hist.size(1),), dtype=torch.long)}
+
+            def extract_by_src(self, prev, src):
+                return {"code": prev["code"].gather(0, src)}
+
+            def mix_by_mask(self, prev_true, prev_false, mask):
+                return {"code": torch.where(mask, prev_true["code"], prev_false["code"])}
+
+            def calc_idx_log_probs(self, hist, prev, idx):
+                code = prev["code"]
+                B = hist.size(1)
+                S = hist.size(0)
+                if symbolic:
+                    hn = hist.nested() if S else []
+                    cv, iv = code.vals(), idx.vals() if idx.dim() else [idx.vals()[0]] * B
+                    new, rows = [], []
+                    for b in range(B):
+                        last = 0
+                        hist_code = 0
+                        for s in range(S):
+                            last = s_ite(s_cmp("eq", iv[b], s + 1), hn[s][b], last)
+                        # code of hist[:idx-1] computed from the tokens themselves
+                        for s in range(S):
+                            hist_code = s_ite(s_cmp("lt", s + 1, iv[b]), s_add(hist_code * (V + 1) if not is_sym(hist_code) else hist_code * (V + 1), s_add(hn[s][b], 1)), hist_code)
+                        record(b, iv[b], cv[b], hist_code)
+                        nc = s_ite(s_cmp("gt", iv[b], 0), s_add(cv[b] * (V + 1) if not is_sym(cv[b]) else cv[b] * (V + 1), s_add(last, 1)), cv[b])
+                        new.append(nc)
+                        # scores depend on the state: two dyadic rows chosen by the parity of the code
+                        par = s_cmp("eq", nc - 2 * (nc / 2) if is_sym(nc) else nc % 2, 0)
+                        for v in range(V):
+                            rows.append(s_ite(par, LOG75 if v == 0 else LOG25, LOG25 if v == 0 else LOG75))
+                    eng = E.ENGINE
+                    return eng.tensor(rows, (B, V), torch.float32), {"code": eng.tensor(new, (B,), torch.int64)}
+                idxv = idx.expand(B) if idx.dim() == 0 else idx
+                new = code.clone()
+                rows = torch.zeros(B, V)
+                for b in range(B):
+                    i = int(idxv[b])
+                    hc = 0
+                    for s in range(max(i - 1, 0)):
+                        hc = hc * (V + 1) + int(hist[s, b]) + 1
+                    record(b, i, int(code[b]), hc)
+                    if i > 0:
+                        new[b] = int(code[b]) * (V + 1) + int(hist[i - 1, b]) + 1
+                    par = int(new[b]) % 2 == 0
+                    for v in range(V):
+                        rows[b, v] = (LOG75 if v == 0 else LOG25) if par else (LOG25 if v == 0 else LOG75)
+                return rows, {"code": new}
+
+        return CodeLM()
+
+    def _run(self, logits, lens, symbolic, valid_of):
+        """returns (outputs, list of (step, slot, idx, threaded code, code of tokens, valid?))"""
+        import pydrobert.torch._decoding as D
+        from pydrobert.torch.modules import CTCPrefixSearch
+        c = self.cfg
+        checks = []
+        state = dict(step=0, valid=None)
+
+        def record(b, idx, threaded, fromhist):
+            v = True if state["valid"] is None else state["valid"][b]
+            n = b if state["step"] == 0 else b // c["width"]
+            checks.append((state["step"], b, idx, threaded, fromhist, v, n))
+
+        real_adv = D.ctc_prefix_search_advance
+
+        def adv(*a, **k):
+            out = real_adv(*a, **k)
+            nb, bl = out[3]
+            state["valid"] = valid_of(nb, bl)
+            state["step"] += 1
+            return out
+
+        lm = self._lm(symbolic, record)
+        D.ctc_prefix_search_advance = adv  # recording wrapper in the module namespace (calls the real function)
+        try:
+            res = CTCPrefixSearch(c["width"], c["beta"], lm, c["valid_mixture"])(logits, lens)
+        finally:
+            D.ctc_prefix_search_advance = real_adv
+        return res, checks
+
+    def symbolic(self, eng):
+        c = self.cfg
+        T, V, N, W = c["T"], c["V"], c["N"], c["width"]
+        rows = self._rows()
+        K = len(rows)
+        sel = [[eng.int(f"sel{t}_{n}", 0, K - 1) for n in range(N)] for t in range(T)]
+        lv = [eng.int(f"len{n}", 0, T) for n in range(N)]
+        probs_cells = []
+        for t in range(T):
+            for n in range(N):
+                for v in range(V + 1):
+                    cell = float(rows[K - 1][v])
+                    for k in range(K - 2, -1, -1):
+                        cell = s_ite(s_cmp("eq", sel[t][n], k), float(rows[k][v]), cell)
+                    probs_cells.append(cell)
+
+        def softmax_stub(e, func, ov, a, dim, half):
+            if tuple(a.shape) == (T, N, V + 1):
+                return e.tensor(probs_cells, (T, N, V + 1), torch.float32)
+            # LM rows are log(3/4, 1/4) or log(1/4, 3/4): their softmax is that distribution
+            out = []
+            for r in a.nested():
+                m0 = s_cmp("eq", r[0], LOG75)
+                out.extend([s_ite(m0, 0.75, 0.25), s_ite(m0, 0.25, 0.75)])
+            return e.tensor(out, tuple(a.shape), torch.float32)
+
+        eng.stubs["_softmax"] = softmax_stub
+
+        def lsm_stub(e, func, ov, a, dim, half):
+            return a  # identity on the (already log-like) LM rows
+
+        eng.stubs["_log_softmax"] = lsm_stub
+
+        def exp_stub(e, func, ov, a):
+            # exp(beta * log p) = p ** beta for p in {3/4, 1/4}
+            b = c["beta"]
+            return e.unop(lambda v: s_ite(s_cmp("eq", v, b * LOG75), 0.75 ** b, 0.25 ** b), a)
+
+        eng.stubs["exp"] = exp_stub
+        logits = eng.tensor([eng.fresh("logit", torch.float32) for _ in range(T * N * (V + 1))], (T, N, V + 1), torch.float32)
+        lens = eng.tensor(lv, (N,), torch.int64)
+
+        def valid_of(nb, bl):
+            return [s_and(xr(s_add(x, y)).fin(), s_cmp("gt", xr(s_add(x, y)).val, 0.0)) for x, y in zip(nb.vals(), bl.vals())]
+
+        (y, y_lens, probs), checks = self._run(logits, lens, True, valid_of)
+        viol = []
+        for (step, b, idx, threaded, fromhist, valid, n) in checks:
+            # only frames inside the element's own length matter (afterwards its beam is frozen)
+            live = s_and(valid, s_cmp("lt", step, lv[n]))
+            viol.append((f"step {step} beam slot {b}: fused model state does not correspond to the prefix it is attached to",
+                         s_and(live, s_cmp("ne", threaded, fromhist))))
+        nan = s_any(xr(p).nan for p in probs.vals())
+        viol.append(("a returned probability is NaN", nan))
+        return dict(outputs=[], viol=viol)
+
+    def concrete(self, vals):
+        c = self.cfg
+        T, V, N, W = c["T"], c["V"], c["N"], c["width"]
+        rows = self._rows()
+        lv = [vals[f"len{n}"] for n in range(N)]
+        probs_in = torch.tensor([[[float(rows[vals[f"sel{t}_{n}"]][v]) for v in range(V + 1)] for n in range(N)] for t in range(T)], dtype=torch.float64).reshape(T, N, V + 1)
+
+        def valid_of(nb, bl):
+            return [(math.isfinite(p) and p > 0) for p in (nb + bl).reshape(-1).tolist()]
+
+        (y, y_lens, probs), checks = self._run(probs_in.log().float(), torch.tensor(lv), False, valid_of)
+        failures = []
+        for (step, b, idx, threaded, fromhist, valid, n) in checks:
+            if valid and step < lv[n] and threaded != fromhist:
+                failures.append(f"step {step} beam slot {b}: threaded model state {threaded} != state of its prefix {fromhist} (prefix length {idx})")
+        if torch.isnan(probs).any():
+            failures.append(f"a returned probability is NaN: {probs.tolist()}")
+        return dict(outputs=[], failures=failures)
